@@ -38,7 +38,7 @@ RULE = ("seeded plans: header (3 grids: main / same shape but unequal / other sh
         "copy, apply, from_collection, mutate source / read-back fields, storage.tracker() inside a real eq.solve run that "
         "may be stopped or aborted); every 4th plan is fault-free; a plan is non-trivial if at least one fault fired or at "
         "least two writing sessions were started; distinct = distinct (header, ops)")
-PROBES = [
+PROBES = ["probes/dtype_escalated", "probes/read_fixed_negative_index", 
     "faults/fired_append_wrong_grid", "faults/fired_append_wrong_shape", "faults/fired_append_no_shape",
     "faults/fired_apply_raises", "faults/fired_session_aborted", "faults/fired_readonly_start",
     "faults/fired_start_wrong_shape", "faults/fired_sim_aborted_by_other_tracker",
@@ -66,9 +66,13 @@ COMPONENTS = {
                     "transformations handed to storage.tracker (1 and 2 arguments)"],
 }
 ASSUMPTIONS = [
-    "one dtype per plan (float64 or complex128): appending a complex field to a storage whose template is real is read back "
-    "with the imaginary part dropped (numpy ComplexWarning); the documentation does not say whether dtypes may be mixed, so "
-    "the check does not mix them (reported as a doubtful case)",
+    "dtypes: float64 or complex128 per plan; 30% of the real plans switch to complex fields at some point, so that later "
+    "sessions of a storage hold another dtype than earlier ones - but only 'upwards': a complex frame is never put under a real "
+    "template and a real template never over surviving complex frames, because such a frame is read back with the imaginary "
+    "part dropped on the unchanged tree (numpy ComplexWarning) and the documentation does not say whether that is supported "
+    "(reported as a doubtful case, not asserted)",
+    "40% of the plans verify 'lightly': the per-operation comparison reads the stored arrays directly and the public read path "
+    "is exercised only by the plan's own read operations, so that the oracle's reads cannot mask what a user's reads would see",
     "the explicit raise statements of the storage classes count as documentation: start_writing in readonly mode -> RuntimeError; "
     "start_writing with another data shape while a data shape is set -> ValueError; append with an unequal grid or another data "
     "shape -> ValueError; index out of range -> IndexError; extract_field of a non-collection -> TypeError; view_field of a "
@@ -259,7 +263,7 @@ def gen_plan(rng, tier, idx):
         return {"op": "append", "s": slot_s() if s is None else s, "f": slot_f() if f is None else f, "time": a_time()}
 
     def gen_read(s=None):
-        how = _pick(rng, ("index", "index", "neg", "slice", "iter", "items", "oob"))
+        how = _pick(rng, ("index", "index", "neg", "last", "last", "slice", "iter", "items", "oob"))
         op = {"op": "read", "s": slot_s() if s is None else s, "how": how, "i": rng.randint(0, 12),
               "mutate": rng.random() < 0.5, "keep": rng.random() < 0.15}
         if how == "slice":
@@ -365,6 +369,13 @@ def gen_plan(rng, tier, idx):
             ops.append({"op": "mode", "s": slot_s(), "mode": _pick(rng, modes)})
         elif fam == "read":
             ops.append(gen_read())
+            if rng.random() < 0.25:
+                # poll the newest frame around an append: the same (negative) index must follow the growing storage
+                s = ops[-1]["s"]
+                k = rng.randint(0, 1)
+                ops[-1] = {"op": "read", "s": s, "how": "last", "i": k, "mutate": False, "keep": False}
+                ops.append(gen_append(s, 0 if rng.random() < 0.7 else None))
+                ops.append({"op": "read", "s": s, "how": "last", "i": k, "mutate": rng.random() < 0.3, "keep": False})
         elif fam in ("extract_field", "extract_time", "view", "copy", "apply"):
             op = gen_derived()
             tries = 0
@@ -385,8 +396,16 @@ def gen_plan(rng, tier, idx):
             ops.append(gen_field())
         elif fam == "end":
             ops.append({"op": "end", "s": slot_s()})
+    if dtype == "real" and rng.random() < 0.3 and len(ops) > 4:
+        # from some point on the user works with complex fields: later sessions of a storage may hold another dtype
+        # than earlier ones (only "upwards", real -> complex, see ASSUMPTIONS)
+        pos = rng.randint(1, len(ops) - 1)
+        ops[pos:pos] = [{"op": "escalate"}, gen_field(), gen_field()]
     return {"engine": "storage-sim", "prop": PROPERTY, "fault_free": fault_free, "dtype": dtype, "grids": grids,
             "kinds": kinds, "first_mode": _pick(rng, (None, None, "truncate_once", "truncate", "append")),
+            # "light": the per-operation comparison looks at the stored arrays directly and reads through the public
+            # read path only where the plan says so - the oracle's own reads must not mask what a user's reads would see
+            "verify": "light" if rng.random() < 0.4 else "deep",
             "f0_seed": seed(), "ops": ops}
 
 
@@ -431,6 +450,11 @@ def _rand_array(rng, shape, dtype):
     if dtype == "complex":
         a = a + 1j * rng.uniform(-1.0, 1.0, size=shape)
     return a
+
+
+def _dt_of(field):
+    """'complex' / 'real' of a live field (after a dtype escalation the pool holds both)"""
+    return "complex" if np.iscomplexobj(field.data) else "real"
 
 
 def _np_dtype(dtype):
@@ -688,8 +712,9 @@ class _Exec:
         return None
 
     def verify_all(self, where):
+        deep = self.plan.get("verify", "deep") != "light"
         for k, ent in enumerate(self.storages):
-            d = self.diff(ent["obj"], ent["m"])
+            d = self.diff(ent["obj"], ent["m"], deep=deep)
             if d:
                 self.fail(d[0], f"[storage slot {k}, {where}] {d[1]}")
 
@@ -779,6 +804,25 @@ class _Exec:
         return t
 
     # ---- operations ------------------------------------------------------------------------
+    def op_escalate(self, op):
+        if self.dtype == "real":
+            self.dtype = "complex"
+            self.probe("dtype_escalated")
+            return ("ok",)
+        return ("noop",)
+
+    def _dtype_guard(self, st, m, F, starting):
+        """Mixed dtypes are only generated "upwards": a frame must fit the dtype of the template it is read through.
+        (A complex frame read through a real template loses its imaginary part on the unchanged tree; the
+        documentation does not say whether that combination is supported, so it is not generated.)"""
+        fc = bool(np.iscomplexobj(F["obj"].data))
+        tmpl = getattr(st, "_field", None)
+        tmpl_c = tmpl is not None and bool(np.iscomplexobj(tmpl.data))
+        has_c = any(np.dtype(fr["dt"]).kind == "c" for fr in m.frames)
+        if starting:
+            return (not fc) and has_c  # a real template over surviving complex frames
+        return fc and tmpl is not None and not tmpl_c  # a complex frame under a real template
+
     def op_field(self, op):
         g, k = op["g"] % len(self.grids), op["k"] % len(self.kinds)
         kind = self.kinds[k]
@@ -820,7 +864,7 @@ class _Exec:
             m.tmpl, m.grid, m.shape = F["kind"], F["g"], tuple(F["obj"].data.shape)
         elif how == "data":
             shape = tuple(F["obj"].data.shape)
-            data = [np.ascontiguousarray(_rand_array(rng, shape, self.dtype)) for _ in times]
+            data = [np.ascontiguousarray(_rand_array(rng, shape, _dt_of(F["obj"]))) for _ in times]
             for t, a in zip(times, data):
                 m.frames.append(_frame(t, a))
             st = pde.MemoryStorage(list(times), data, field_obj=F["obj"], **kw)
@@ -831,7 +875,7 @@ class _Exec:
         elif how == "from_fields":
             if not times:
                 times = [0.0]
-            flds = [_make_field(grid, F["kind"], int(rng.integers(1 << 30)), self.dtype) for _ in times]
+            flds = [_make_field(grid, F["kind"], int(rng.integers(1 << 30)), _dt_of(F["obj"])) for _ in times]
             for t, f in zip(times, flds):
                 m.frames.append(_frame(t, f.data))
             st = pde.MemoryStorage.from_fields(list(times), flds, **kw)
@@ -880,6 +924,9 @@ class _Exec:
     def op_start(self, op):
         ent, F = self.S(op["s"]), self.F(op["f"])
         st, m = ent["obj"], ent["m"]
+        if self._dtype_guard(st, m, F, starting=True):
+            self.count("skipped", "real_template_over_complex_frames")
+            return ("skipped",)
         shape = tuple(F["obj"].data.shape)
         exp = self.expect_start(m, shape)
         info = dict(op["info"]) if op.get("info") else None
@@ -912,6 +959,9 @@ class _Exec:
         st, m = ent["obj"], ent["m"]
         if len(m.frames) >= MAX_FRAMES:
             self.count("skipped", "frame_cap")
+            return ("skipped",)
+        if self._dtype_guard(st, m, F, starting=False):
+            self.count("skipped", "complex_frame_under_real_template")
             return ("skipped",)
         shape = tuple(F["obj"].data.shape)
         verdict, allowed, tag = self.expect_append(m, F["g"], shape)
@@ -1008,14 +1058,14 @@ class _Exec:
         how = op["how"]
         if how == "sub" and F["kind"]["cls"] == "coll":
             k = int(op["seed"]) % len(F["kind"]["ranks"])
-            obj[k].data[...] = _rand_array(rng, obj[k].data.shape, self.dtype)
+            obj[k].data[...] = _rand_array(rng, obj[k].data.shape, _dt_of(obj[k]))
         elif how == "scale":
             obj.data *= 1.5
             obj.data += 0.25
         elif how == "fill":
             obj.data = 7.0
         else:
-            obj.data[...] = _rand_array(rng, obj.data.shape, self.dtype)
+            obj.data[...] = _rand_array(rng, obj.data.shape, _dt_of(obj))
         for ent in self.storages:
             for fr in ent["m"].frames:
                 if fr["src"] == F["serial"]:
@@ -1049,6 +1099,11 @@ class _Exec:
                     pairs.append((st[i - n], i))
                 else:
                     pairs.append((st[i], i))
+            elif how == "last":
+                k = 1 + op["i"] % 2  # a fixed negative index, whatever the current length is
+                if n >= k:
+                    pairs.append((st[-k], n - k))
+                    self.probe("read_fixed_negative_index")
             elif how == "slice":
                 sl = slice(*op["slice"])
                 got = st[sl]
@@ -1274,6 +1329,8 @@ class _Exec:
         """the storage entry used as `out=` (never the source itself)"""
         if op.get("out") is None or len(self.storages) < 2:
             return None
+        if self.dtype != self.plan["dtype"]:
+            return None  # after a dtype escalation derived storages are always fresh ones (see _dtype_guard)
         i = self.storages.index(ent)
         j = (i + 1 + int(op["out"]) % (len(self.storages) - 1)) % len(self.storages)
         return self.storages[j]
@@ -1467,6 +1524,9 @@ class _Exec:
         if len(m.frames) + op["n"] + 3 > MAX_FRAMES and m.mode in ("append", "readonly"):
             self.count("skipped", "frame_cap")
             return ("skipped",)
+        if self._dtype_guard(st, m, F, starting=True):
+            self.count("skipped", "real_template_over_complex_frames")
+            return ("skipped",)
         state = F["obj"]
         a = float(op["a"])
         if op["eq"] == "diffusion" and F["kind"]["cls"] == "scalar" and self.plan["grids"][F["g"]]["kind"] in ("unit", "cart"):
@@ -1604,7 +1664,7 @@ class _Exec:
         self.add_field(f0, 0, self.kinds[0])
         kw = {} if plan.get("first_mode") is None else {"write_mode": plan["first_mode"]}
         self.add_storage(pde.MemoryStorage(**kw), _Model(plan.get("first_mode") or "truncate_once"))
-        table = {"field": self.op_field, "new_storage": self.op_new_storage, "start": self.op_start, "append": self.op_append,
+        table = {"escalate": self.op_escalate, "field": self.op_field, "new_storage": self.op_new_storage, "start": self.op_start, "append": self.op_append,
                  "end": self.op_end, "clear": self.op_clear, "mode": self.op_mode, "mutate": self.op_mutate, "read": self.op_read,
                  "extract_field": self.op_extract_field, "extract_time": self.op_extract_time, "view": self.op_view,
                  "copy": self.op_copy_apply, "apply": self.op_copy_apply, "sim": self.op_sim}
@@ -1657,6 +1717,8 @@ def simplify(plan):
 
     if plan["dtype"] != "real":
         yield variant(lambda p: p.update(dtype="real"))
+    if plan.get("verify") == "deep":
+        yield variant(lambda p: p.update(verify="light"))
     small = [{"kind": "unit", "shape": [2], "periodic": [False]}, {"kind": "unit", "shape": [2], "periodic": [True]},
              {"kind": "unit", "shape": [3], "periodic": [False]}]
     if plan["grids"] != small:
